@@ -143,7 +143,7 @@ class Emitter:
         f = Fraction(v.split("e")[0].split("E")[0]) * Fraction(10) ** int((re.split("[eE]", v) + ["0"])[1])
         if self.mode == "float":
             return "(%s : Float)" % (v if ("." in v or "e" in v.lower()) else v + ".0")
-        ty = "ℝ" if self.mode == "real" else "Rat"
+        ty = "ℝ" if self.mode == "real" else "K" if self.mode == "field" else "Rat"
         if f.denominator == 1:
             return "(%d : %s)" % (f.numerator, ty)
         return "((%d : %s) / %d)" % (f.numerator, ty, f.denominator)
